@@ -10,10 +10,10 @@ import (
 
 func init() {
 	props["C13"] = &propCheck{
-		lean:    []string{"JSight.Props.C13"},
+		lean:    []string{"JSight.Props.C13", "JSight.Props.C13_Bind"},
 		exes:    []string{"jsight-model", "jsight-build"},
 		run:     runC13,
-		assume:  []string{"the binding of declared Path schemas to interactions is decided by search against the declarative binding; the theorems cover the (prefix, name) split and its checks"},
+		assume:  []string{"the property keys of each Path body (after shortcut expansion) and the flat-object check are the schema library's (oracle); the binding model is given the keys the real code read (hook VerifRawPathVariableDetails)"},
 		rule:    "path strings: all strings over {/,{,},a,b} up to the length bound + random; a case is non-trivial when the path has at least one {..} segment; path trees: generated documents with shared prefixes, parameters at any depth, Path under URL or method, and faulty variants",
 		trusted: []string{"modelled, not verified: strings.Trim/Split/Join (byte-level models in Model/PathPar.lean)"},
 	}
